@@ -338,7 +338,7 @@ def c06(ctx):
     sel = pick_strat(progs, 70, ctx.seed, min_per=8) if ctx.tier == "quick" else progs
     ctx.cov["exhaustive"] = ctx.tier != "quick"
     ctx.cov["rule"] = ("programs = GenEntity: 5 circuit-controllable prototypes x 15 enable forms (inlinable comparisons, signal-vs-signal, "
-                       "general expressions, logic, bare signals), shared sources / several entities, contents read through .output (any/all "
+                       "general expressions, logic, bare signals, conditional values with constant outputs -2 / 2 / 5), shared sources / several entities, contents read through .output (any/all "
                        "inlined, selection, merges of two chests, the documented balanced-loader pattern); each compiled with and without "
                        "optimisation; for every valuation of inputs and chest contents TLC evaluates the entity's circuit condition on the "
                        "network actually wired to it and compares with (expr > 0)")
